@@ -969,6 +969,15 @@ class Intrinsics:
     def s_uninterpreted(self, P, fn):
         return fn
 
+    def s_case_split(self, P, *conds):
+        if getattr(P, 'hints_off', 0):
+            return True
+        for c in conds:
+            c = P.truthy(c)
+            if not isinstance(c, bool):
+                P.branch(c, 'case_split')
+        return True
+
     def s_is_none(self, P, v):
         return v is None
 
